@@ -223,9 +223,7 @@ fn kind_checks<T: SerDes + Clone + Send + Sync>(ctx: &Ctx, k: &Kind<T>, env_valu
             if r.is_ok() {
                 return Err(Fail::new(format!("{}: deserialize returned a value for [{}]", name, what)));
             }
-            if rd.consumed() > bytes.len() {
-                return Err(Fail::new(format!("{}: a failing read consumed more than the encoding length", name)));
-            }
+            // (how many bytes a FAILING read consumes is not promised by the property; only success fixes the count)
             Ok("rejected stream")
         },
     );
